@@ -1,6 +1,7 @@
 package checks
 
 import (
+	"strings"
 	"time"
 
 	"encoding/json"
@@ -22,6 +23,9 @@ type c13Case struct {
 	Cfg    sut.Config `json:"cfg"`
 	Spec   PipeSpec   `json:"spec"`
 	Forget []Req      `json:"fire_and_forget,omitempty"` // writes sent by a client that disconnects right after sending: they must still reach the node the redirection names
+	// Hung: a request timeout is configured and the node a redirection names never answers (the pipelines of
+	// C16 with every stalled request redirected first): the redirected request still has to terminate
+	Hung *c16Case `json:"hung_redirect_target,omitempty"`
 }
 
 // slots of the even 3-master layout: node 0: 0-5460, node 1: 5461-10921, node 2: 10922-16383
@@ -39,6 +43,18 @@ func c13NodeOf(slot int) int {
 
 func c13Gen(t *rapid.T) c13Case {
 	var c c13Case
+	if rapid.IntRange(0, 7).Draw(t, "hung") == 0 {
+		h := c16Gen(t)
+		h.Kill = false
+		for i := range h.Reqs {
+			if h.Reqs[i].Stall {
+				h.Reqs[i].Moved = true
+			}
+		}
+		c.Hung = &h
+		c.Cfg = sut.Config{TimeoutMs: h.TimeoutMs, ServerConns: 1}
+		return c
+	}
 	c.Cfg = rapid.SampledFrom(shardPick([]sut.Config{{ServerConns: 1}, {ServerConns: 2}, {ServerConns: 1, Password: "pw"}}, 2)).Draw(t, "cfg")
 	// choose which of the pool slots moved / are migrating
 	for _, s := range c13SlotPool {
@@ -169,6 +185,16 @@ func c13Gen(t *rapid.T) c13Case {
 
 func c13Exec(c *c13Case) []Discrepancy {
 	f := getFixture("C13", c.Cfg, 3, 0)
+	if c.Hung != nil {
+		ds := c16Run(f, c.Hung)
+		for i := range ds {
+			ds[i].Sig = "C13/redirected-request-" + strings.TrimPrefix(ds[i].Sig, "C16/")
+		}
+		if len(ds) > 0 {
+			dropFixture(f)
+		}
+		return ds
+	}
 	ds := c13Run(f, c)
 	if len(ds) > 0 {
 		dropFixture(f)
@@ -324,6 +350,9 @@ func c13Forget(f *Fixture, c *c13Case) []Discrepancy {
 }
 
 func c13Classify(c *c13Case) (bool, []string) {
+	if c.Hung != nil {
+		return true, []string{"redirection-names-a-node-that-never-answers-with-a-timeout-configured"}
+	}
 	moved := map[int]bool{}
 	for _, m := range c.Spec.Moved {
 		moved[m.Slot] = true
